@@ -215,6 +215,10 @@ class Client:
         return self.statuses[-1][:3] if self.statuses else ["disconnected", "nokey", "nocode"]
 
     def ev(self, kind, value):
+        if kind == "message" and not isinstance(value, bytes):
+            # get_message() answered with something that is not a message at all (None, another callback's result): it is
+            # what the application got, so it is recorded - as bytes nobody sent - and judged, not a reason to stop
+            value = b"<not-bytes:" + repr(value)[:40].encode("utf-8", "replace") + b">"
         self.events.append((kind, value))
         if kind == "closed" and self.closed_at is None:
             self.closed_at = self.world.stepno
